@@ -493,6 +493,17 @@ def _main(prop, pid, tier, seed, replay, rundir, t0):
                     rel_mism.append(i); impl[i] = o
             notes.append('release profile: %d cases re-run, %d mismatches' % (len(idx_r), len(rel_mism)))
             mism = mism + rel_mism
+    # thorough tier, `lap` properties: a sample of the cases is re-evaluated inside Coq (vm_compute over coq/LapRun.v) and
+    # compared with what the extracted runner answered: cross-check of the extraction and of the OCaml glue
+    if tier == 'thorough' and not replay and getattr(prop, 'CROSSCHECK', False):
+        import crosscheck
+        step = max(1, len(cases) // 200)
+        n_cc, err_cc = crosscheck.run(COQ, rundir, texts[::step], model[::step], limit=60)
+        notes.append('in-Coq cross-check of the extracted runner: %d cases re-evaluated by vm_compute, %s' % (n_cc, 'all equal' if err_cc is None else 'MISMATCH'))
+        if err_cc is not None:
+            path = write_replay(pid, 'extraction', dict(property=pid, kind='extraction-cross-check',
+                                no_longer_checks='the extracted runner and the Gallina model (vm_compute) disagree on a case', log=err_cc))
+            violations.append((path, ' no-failing-input-found'))
     if replay:
         for i, c in enumerate(cases):
             print('case : ' + c.text)
